@@ -33,6 +33,11 @@ def gen_entities(rng: random.Random, n_groups=None) -> list[dict]:
             role = {"key": rk, "plural": rk + "s"}
             if r == 0 and chance(rng, 0.6):
                 role["max"] = 1
+            elif r == 0 and chance(rng, 0.4):
+                # the *first* role is an umbrella for two sub-roles (the default role of a
+                # person left out of the groups is then the first sub-role)
+                role["max"] = 2
+                role["subroles"] = [rk + "a", rk + "b"]
             elif r == 1 and chance(rng, 0.3):
                 role["max"] = 2
                 if chance(rng, 0.5):
@@ -123,6 +128,9 @@ def prefs_for(U: str, T: str, *, non_increasing: bool, allow_add: bool):
         return []
     if U == T:
         out = [("this", None)] + [(p, None) for p in _earlier_prefs(U)]
+        if allow_add and not non_increasing:
+            # summing over the very period the variable is defined for: one piece
+            out.append(("this", "ADD"))
     elif U == "month" and T == "year":
         out = [("this_year", None), ("last_year", None), ("n_2", None), ("this", "DIVIDE")]
     elif U == "month" and T == "day":
@@ -200,8 +208,13 @@ class ExprGen:
             return self.const()
         pref, opt = pick(self.rng, opts)
         if opt in ("ADD", "DIVIDE") and tgt["type"] not in ("float", "int"):
-            opt, pref = None, {"ADD": "first_month" if tgt["unit"] == "month" else "first_day",
-                               "DIVIDE": "this_year" if tgt["unit"] == "year" else "first_month"}[opt]
+            opt, pref = None, "this" if tgt["unit"] == U else {
+                "ADD": "first_month" if tgt["unit"] == "month" else "first_day",
+                "DIVIDE": "this_year" if tgt["unit"] == "year" else "first_month"}[opt]
+        if opt in ("ADD", "DIVIDE") and chance(self.rng, 0.3):
+            # the formula goes on working *in* the array the ADD / DIVIDE read gave it
+            # (results of such reads are computed, hence the reader's own)
+            opt += "_INPLACE"
         return ["rd", tgt["name"], pref, opt, via]
 
     def param(self):
@@ -441,6 +454,10 @@ def gen_situation(
         if ent.get("is_person"):
             continue
         roles = ent["roles"]
+        if allow_unallocated and chance(rng, 0.12):
+            # this group kind is left out of the document altogether: every person is
+            # put in a group of their own
+            continue
 
         def room(group, role):
             mx = len(role["subroles"]) if role.get("subroles") else role.get("max")
